@@ -1017,8 +1017,15 @@ pub fn check_all(obs: &Obs, out: &mut CaseOut) -> Summary {
             }
 
             // C04: the runtime closed the remote's channel while a link was open (agent stop / agent return / prune).
+            // (A remote removed for inactivity may be far behind: the runtime drops what is still queued for
+            // it, `unlinked` frames included, so the frames it received are only a prefix of what was sent and
+            // an apparently open link proves nothing. Whether a remote that really held a link was pruned is
+            // decided below from its requests, rule `completion/pruned-while-linked`.)
+            let pruned = matches!(v.completion, Some((_, Some(DisconnectionReason::RemoteTimedOut))));
             if let Some(tc) = closed_by_runtime {
-                if open && obs.stuck.is_empty() {
+                if open && pruned {
+                    out.count("closed-by-prune-with-link-open-in-the-remotes-view");
+                } else if open && obs.stuck.is_empty() {
                     // The frame that opened the link was written when the request was handled, possibly long
                     // before a stalled reader received it: look at stalls since that request.
                     let asked = lf.reqs.iter().filter(|r| matches!(r.kind, ReqKind::Link | ReqKind::Sync) && r.t0 < open_since).map(|r| r.t0).last().unwrap_or(open_since);
